@@ -44,6 +44,10 @@ RULE = ('generated (m<=7, t, PRSS on/off) x group (Sym(1..7); QR mod primes 3..2
 ASSUMPTIONS = ['oracle = mpyc.fingroups on plain elements (verified separately by C27)',
                'public exponents are Python ints (a public finite-field element as exponent is accepted by an isinstance '
                'test in repeat() but the docstring only promises integral numbers; it raises for every group: not generated)',
+               'repeat_public with several bases (multi-exponentiation) only on abelian groups: the protocol multiplies the '
+               'parties\' partial products, which is a^x @ b^y only if the group commutes (source comment: prime order group)',
+               'list arguments only for repeat_public (the docstring of repeat() mentions lists, but repeat() itself asserts on '
+               'them for every group: not generated)',
                'public base with a secure FIELD exponent: the field characteristic p is a multiple of the order of the base '
                '(base^p = identity is re-checked on the plain side); secure exponents of a secure base range over '
                '[0, p) of a prime field with p > m or t = 0 (to_bits on a lifted field is the known finding F04a of C04) '
@@ -80,7 +84,7 @@ CL_D = [-3, -7, -11, -23, -31, -47, -59, -71, -79, -103, -127, -167, -191, -199,
 
 
 def budget(tier):
-    return dict(shards=16, examples=40 if tier == 'quick' else 400)
+    return dict(shards=16, examples=40 if tier == 'quick' else 280)
 
 
 # ------------------------------------------------------------------------------------------- plain side
@@ -157,7 +161,18 @@ def _canon(G, spec, r):
     """Canonical JSON-able value of a plain group element r of type G ('invalid: ...' if r is not an element)."""
     fam = spec['fam']
     try:
-        chk = G(r.value)  # constructor with check=True validates membership
+        if fam == 'hc':
+            # HCDivisorCL(value, check=True) reads self.value before it is set (AttributeError for every value):
+            # membership checked here (extended coordinates consistent, u | f - v^2; the identity is all-zero)
+            chk = G(r.value, check=False)
+            v = r.value
+            if any(int(c) for c in v):
+                if v[0]**2 != v[4] or v[0] * v[1] != v[5]:
+                    raise ValueError('incorrect extended coordinates')
+                if (G.f - chk.v**2) % chk.u:
+                    raise ValueError('value not in Jacobian')
+        else:
+            chk = G(r.value)  # constructor with check=True validates membership
     except Exception as exc:
         return f'invalid element {r.value!r}: {type(exc).__name__}: {exc}'
     if fam == 'sym':
@@ -711,6 +726,8 @@ def _case(draw, tier):
             return ['rep', a, ['si', draw(st.integers(-1, m - 1)), n, l], nota], n >= 0
         if op == 'reppub':
             cnt = draw(st.sampled_from([0, 0, 1, 2, 3]))  # 0: single base / exponent (not a list)
+            if fam == 'sym' and spec['n'] >= 3:
+                cnt = min(cnt, 1)  # multi-exponentiation multiplies per-party partial products: abelian groups only
             if t >= 1:
                 want_si = bool(state['known_budget']) and chance(6)  # class of F2
             else:
@@ -778,7 +795,7 @@ MATRIX_THOROUGH = [{'fam': 'sym', 'n': 1}, {'fam': 'sym', 'n': 3}, {'fam': 'sym'
                    {'fam': 'cl', 'D': -199}, {'fam': 'cl', 'D': -647}]
 
 
-def _matrix_case(spec, m, t, prss, idx):
+def _matrix_case(spec, m, t, prss, idx, thorough=False):
     """Deterministic case that exercises every record kind once on the given group (records of the known-finding
     classes of this configuration are left out); elements are drawn from a generator seeded with the cell index."""
     rng = random.Random(f'C28/matrix/{idx}')
@@ -839,11 +856,14 @@ def _matrix_case(spec, m, t, prss, idx):
             ['rep', ['s', s0, a], ['i', -5], 'alt'],
             ['rep', ['r', 1], ['i', 2], 'xor'],
             ['op', ['r', 2], ['s', s0, b], 'alt']]
+    if fam == 'ec' and m >= 3 and not thorough:
+        del recs[7]  # equality tests on 255..448-bit fields cost seconds each for m >= 3: quick keeps two of them
     if fam != 'hc':
         recs += [['rep', ['s', s1, a], ['si', s0, 3, 3], 'repeat'],
                  ['rep', ['s', s0, b], ['sf', s1, 5, 7 if m < 7 else 11], 'xor'],
-                 ['op', ['s', s0, a], ['c', ['id']], '@'],
-                 ['eq', ['s', s0, ['id']], ['p', ['mul', a, ['inv', a]]]]]
+                 ['op', ['s', s0, a], ['c', ['id']], '@']]
+        if not (fam == 'ec' and m >= 3 and not thorough):
+            recs.append(['eq', ['s', s0, ['id']], ['p', ['mul', a, ['inv', a]]]])
     if q is not None and g is not None and (fam != 'hc' or m == 1 or t >= 1):
         x1, x2 = rng.randrange(1, q), rng.randrange(1, q)
         recs += [['rep', ['p', g], ['sf', s1, x1, q], 'xor'],
@@ -856,7 +876,10 @@ def _matrix_case(spec, m, t, prss, idx):
         recs.append(['rep', ['p', ['perm', cyc]], ['sf', s1, p - 1, p], 'repeat'])
     if t == 0:
         recs.append(['rep', ['p', b], ['si', s0, -3, 8], 'xor'])
-        recs.append(['reppub', [a, b], [['si', s0, 2, 8], ['si', -1, -1, 8]], False])
+        if fam == 'sym' and spec['n'] >= 3:
+            recs.append(['reppub', [a], [['si', s0, -2, 8]], False])  # non-abelian: one base
+        else:
+            recs.append(['reppub', [a, b], [['si', s0, 2, 8], ['si', -1, -1, 8]], False])
     keep = [k for k, rec in enumerate(recs) if _known_class(dict(case, ops=recs), rec) is None]
     # drop records that depend on dropped ones, renumber 'r' operands
     pos, out = {}, []
@@ -891,7 +914,7 @@ def enumerate_cases(tier):
                 continue
             if spec['fam'] == 'ec' and m == 7 and spec['curve'] in ('BN256_twist', 'Ed448'):
                 continue
-            yield _matrix_case(spec, m, t, prss, idx)
+            yield _matrix_case(spec, m, t, prss, idx, thorough)
     if not thorough:
         return
     n25519 = 2**252 + 27742317777372353535851937790883648493
